@@ -366,6 +366,11 @@ def records(ctx, sentinel=False):
     base = PLI.Action(uuid=u)
     sub = PLI.RemovePlayerAction(uuid=u)
     sub2 = PLI.UpdateLatencyAction(uuid=u, ping=A[0])
+    # the BASE class is used first (repr / hash / == / iteration), then two
+    # instances of a subclass that differ only in the subclass's own field
+    conds.append(z3.BoolVal(isinstance(repr(base), str) and base == base and
+                            hash(base) == hash(PLI.Action(uuid=u)) and
+                            len(list(base)) == 1))
     sub3 = PLI.UpdateLatencyAction(uuid=u, ping=A[1])
     e3 = sub2 == sub3
     conds.append(z3.BoolVal(bool(e3)) == (E(A[0]) == E(A[1])))
